@@ -191,6 +191,11 @@ pub struct PeriphCfg {
     pub in_len: usize,
     pub out_len: usize,
     pub diag_buf: usize,
+    /// 0: added to the `DpMaster` before the bus runs.  Otherwise the user process calls
+    /// `DpMaster::add()` for it at the first poll at or after this time (µs) — late additions
+    /// are the tail of the peripheral list, in order, so that handle order == list order.
+    #[serde(default)]
+    pub add_at_us: u64,
 }
 
 #[derive(Serialize, Deserialize, Clone, Debug, Default)]
